@@ -50,6 +50,14 @@ pub fn run(c: &Case, rep: &mut Report) {
         }
     }
     let mut compared = 0;
+    // a finished function edited after a first emission must be emitted like one edited before its only emission
+    if let (Some(a), Some(b)) = (end.get("reemit.second"), end.get("reemit.fresh")) {
+        rep.count("second-emissions-after-an-edit-compared", 1);
+        if a != b {
+            let pos = a.iter().zip(b.iter()).position(|(x, y)| x != y).unwrap_or(a.len().min(b.len()));
+            rep.violation(c, "C15/second-emission-after-builder_mut-edit-differs", &format!("build, emit, read a local in front of the body through builder_mut, emit again: {} bytes; the same edit before the only emission: {} bytes; first difference at {}", a.len(), b.len(), pos), &[("second.wasm", a), ("fresh.wasm", b)]);
+        }
+    }
     for order in 1..=8u32 {
         let out = match end.get(&format!("out.{}", order)) {
             Some(o) => o,
